@@ -21,7 +21,7 @@ RULE = ("38 facade methods x every command set whose table offers the command x 
         "inspect.signature of the command class; each supplied argument takes 2 non-default values) x caller buffers of kind bytearray / bytes / memoryview window x 2-3 well-formed device responses chosen to "
         "match the request and 8 truncated ones (a length field announcing more than was transferred: ~500 bytes at offsets 0-1, 0-3, 4-7, 2-3, FFh at 4, FFFEh and 10000h at 0; all bytes FFh); plus every method x set x 10 exception types raised by the device *after* it took the command (exactly one submission, the same exception object reaches the caller) (VPD page by page code, mode page by page code, PR IN data by service action, disc information by data type, READ CD "
         "sectors by selection bits); READ/WRITE(10,12,16) through the real SCSIDevice / ISCSIDevice and the stand-in bindings with transfers of {1,2,7Fh,80h,7FFFh,8000h,8001h,40000,FFFFh} blocks of 512 bytes (one submission, whole buffers, iSCSI expected transfer length = buffer length); 11 methods (reads and writes) as the first call after a re-plug, plain or with the re-open failing once (EACCES/EMFILE/EBUSY), on a real SCSIDevice: one submission to the node now at the path; two facades over two devices (different sets, block sizes 512 / 4096) used alternately A.m, B.m', A.m for every pair of methods and offering sets: own device, own operation code, own block size, same CDB for A before and after; the 12 script invocations shipped under tools/ and examples/ (inquiry, getlbastatus, mtx status/load/unload against a simulated changer, read16, read_cd, read_disc_information, readcapacity10/16, reportluns, reportpriority) run as a user runs them on both transports: no exception, CDB lengths, printed values agree with the device. after every successful call: decode the returned command again, submit it again, repeat the call on the same facade (same CDB, one submission each, equal result, fresh buffers). Non-trivial = at least one optional argument supplied or a non-SPC command set; distinct = distinct (method, "
-        "set, argument dict, response). Every method x set over a real device of either transport twice, with all clocks of the time module advanced by {0,1,299,301,3600,10^7} s in between: one command each, same CDB, the attached set's operation code.")
+        "set, argument dict, response). Every method x set over a real device of either transport twice, with all clocks of the time module advanced by {0,1,299,301,3600,10^7} s in between: one command each, same CDB, the attached set's operation code. Every method x set x transport called 260 times in a row (thorough: 1100; 66000 for six methods): every call one command, CDB and result of the first call.")
 ASSUMPTIONS = [
     "the recording device is a plain object with opcodes/execute/close: it notes call count, a copy of the CDB, id() of both buffers and whether cmd.result was already populated, then fills data-in in place",
     "decode *correctness* is C04's subject: here cmd.result must equal the decoder applied separately to a copy of what the device wrote (same keyword arguments), (the evidence counts the cases where that differs from the decode of an untouched zero buffer, i.e. where decoding before executing would be caught)",
@@ -443,6 +443,58 @@ def run_idle(case, obs=None):
     return out
 
 
+REPEAT_HEAVY = ("testunitready", "read10", "write10", "inquiry", "readcapacity16", "modesense6")
+
+
+def repeat_count(method, tier):
+    if tier == "quick":
+        return 260
+    return 66000 if method in REPEAT_HEAVY else 1100
+
+
+def run_repeat(case, obs=None):
+    """the same facade call N times on one real device (N crosses 256, in the thorough tier 1024 and for six methods 65536): every
+    call reaches the target exactly once with the CDB of the first call and gives the result of the first call"""
+    from vf import harness
+    from vf.props.c09 import freeze
+    _, tr, st, method, n = case
+    out = []
+    rig = harness.Rig(tr, F.SET_TO_TYPE[st])
+    try:
+        s = rig.facade(512)
+        resp = response_for(method, dict(F.FACADE[method][2]), 0)
+        rig.target.responder = lambda cdb: resp
+        first = None
+        for i in range(n):
+            del rig.target.log[:]
+            del registry.iscsi_tasks[:]
+            where = "%s on a %s %s device, call #%d of %d identical ones" % (method, tr, st, i + 1, n)
+            try:
+                cmd = F.call(s, method)
+                try:
+                    res = freeze(cmd.result)
+                except Exception:   # noqa: BLE001
+                    res = None
+                oc = ("ok", bytes(cmd.cdb), res, bytes(cmd.datain[:64]))
+            except Exception as e:   # noqa: BLE001
+                oc = ("raised", type(e).__name__, str(e)[:80])
+            seen = (oc, [r["cdb"] for r in rig.target.log])
+            if first is None:
+                first = seen
+                if len(seen[1]) != 1:
+                    out.append(("repeat/submissions/%s" % method, "%s: %d commands reached the target (%s)" % (where, len(seen[1]), oc[:2])))
+                    break
+            elif seen != first:
+                what = "%d commands reached the target" % len(seen[1]) if len(seen[1]) != 1 else "outcome %r, the first call gave %r" % (seen[0][:2], first[0][:2]) if seen[0][:2] != first[0][:2] else "another result / data-in content than the first call"
+                out.append(("repeat/differs/%s" % method, "%s: %s" % (where, what)))
+                break
+        if obs is not None:
+            obs.append((first[0][0], n))
+    finally:
+        rig.close()
+    return out
+
+
 def run_two(case, obs=None):
     """two facades over two devices alive at once (different command sets, different block sizes), used alternately:
     A.m, B.m', A.m - every call reaches its own device once, with its own device's operation code and its own facade's block size;
@@ -494,6 +546,8 @@ def run_two(case, obs=None):
 def run_case(case, obs=None):
     if case[0] == "idle":
         return run_idle(case, obs)
+    if case[0] == "repeat":
+        return run_repeat(case, obs)
     if case[0] == "tools":
         from vf.props import c13_tools
         return c13_tools.run_tool(*c13_tools.SCRIPTS[case[1]], case[2])[0]
@@ -675,7 +729,8 @@ def replay(case):
 
 def partitions(tier):
     return ([[m] for m in F.FACADE] + [["transport", tr, m] for tr in ("sgio", "iscsi") for m in ("read10", "read12", "read16", "write10", "write12", "write16")]
-            + [["recovery"]] + [["two", m] for m in F.FACADE] + [["tools"]] + [["idle", tr] for tr in ("sgio", "iscsi")])
+            + [["recovery"]] + [["two", m] for m in F.FACADE] + [["tools"]] + [["idle", tr] for tr in ("sgio", "iscsi")]
+            + [["repeat", tr, m] for tr in ("sgio", "iscsi") for m in F.FACADE])
 
 
 def run_partition(part, tier, seed):
@@ -713,6 +768,23 @@ def run_partition(part, tier, seed):
                     for k, w in v:
                         acc.violation(k, w, case)
                     acc.outcome((repr(case), tuple(obs), tuple(k for k, _ in v)))
+        return acc
+    if part[0] == "repeat":
+        m = part[2]
+        for st in F.sets_offering(m):
+            case = ["repeat", part[1], st, m, repeat_count(m, tier)]
+            acc.case(case, nontrivial=True, key=repr(case))
+            obs = []
+            try:
+                v = run_case(case, obs)
+            except Exception:
+                import traceback
+                v = [("harness_error", traceback.format_exc()[-600:])]
+            for k, w in v:
+                acc.violation(k, w, case)
+            acc.outcome((repr(case[:4]), tuple(obs), tuple(k for k, _ in v)))
+            acc.transitions += case[4]
+            acc.traces += 1
         return acc
     if part[0] == "idle":
         for m in F.FACADE:
